@@ -4,6 +4,7 @@ package transport
 
 import (
 	"fmt"
+	"sort"
 	"runtime/debug"
 	"testing"
 
@@ -81,7 +82,7 @@ func c01Scenarios() []c01Scenario {
 		{name: "client/full", side: clientSide, ops: c01FullAlphabet(clientSide), depthQ: 4, depthT: 5},
 		{name: "server/full", side: serverSide, ops: c01FullAlphabet(serverSide), depthQ: 4, depthT: 5},
 		// two client streams starving each other on both windows
-		{name: "client/windows2", side: clientSide, pre: o2, depthQ: 5, depthT: 8, ops: []c01Op{
+		{name: "client/windows2", side: clientSide, pre: o2, depthQ: 5, depthT: 7, ops: []c01Op{
 			c01OpData(1, 16390, false), c01OpData(1, 40000, true), c01OpData(3, 1, false), c01OpData(3, 40000, false), c01OpEnd(3),
 			c01OpWUConn(1), c01OpWUConn(65535), c01OpWUStr(1, 1), c01OpWUStr(1, 16384), c01OpWUStr(3, 65535),
 			c01OpSettings(0, 0), c01OpSettings(1, 0), c01OpSettings(65535, 0), c01OpSettings(65535, 1), c01OpSettings(1<<20, 0), c01OpSettings(1<<20, 1),
@@ -97,6 +98,22 @@ func c01Scenarios() []c01Scenario {
 			c01OpOpen(), c01OpData(1, 0, false), c01OpData(1, 16390, true), c01OpData(3, 40000, false), c01OpData(3, 9, true), c01OpEnd(1), c01OpEnd(3),
 			c01OpCleanup(1, false), c01OpCleanup(1, true), c01OpCleanup(3, true), c01OpWUConn(65535), c01OpWUStr(1, 16384), c01OpSettings(0, 0), c01OpSettings(1<<20, 0),
 			c01OpInGoAway(), c01OpGoAway(), c01OpIdle(), c01OpTick()}},
+		// the connection window is the bottleneck: two / three streams queued behind an
+		// exhausted connection window, then grants that one frame consumes (16384), that
+		// are smaller than run()'s minBatchSize (1: the Gosched retry of idle) or
+		// plentiful (65535); ticks, stream credit, new data and cancels in between
+		{name: "client/conn-starved2", side: clientSide, pre: c01StarvedPre(2), depthQ: 6, depthT: 9, ops: []c01Op{
+			c01OpWUConn(16384), c01OpWUConn(1), c01OpWUConn(65535), c01OpWUStr(3, 16384), c01OpData(1, 9, false), c01OpData(3, 16390, true),
+			c01OpSettings(1<<20, 0), c01OpCleanup(3, true), c01OpIdle(), c01OpTick()}},
+		{name: "server/conn-starved2", side: serverSide, pre: c01StarvedPre(2), depthQ: 6, depthT: 9, ops: []c01Op{
+			c01OpWUConn(16384), c01OpWUConn(1), c01OpWUConn(65535), c01OpWUStr(3, 16384), c01OpDataS(1, 9), c01OpDataS(3, 16390),
+			c01OpSettings(1<<20, 0), c01OpTrailers(3, true), c01OpIdle(), c01OpTick()}},
+		{name: "client/conn-starved3", side: clientSide, pre: c01StarvedPre(3), depthQ: 6, depthT: 9, ops: []c01Op{
+			c01OpWUConn(16384), c01OpWUConn(1), c01OpWUStr(5, 16384), c01OpData(1, 40000, false), c01OpSettings(16384, 0), c01OpSettings(1<<20, 0), c01OpSettings(1<<20, 1),
+			c01OpCleanup(3, false), c01OpIdle(), c01OpTick()}},
+		{name: "server/conn-starved3", side: serverSide, pre: c01StarvedPre(3), depthQ: 6, depthT: 9, ops: []c01Op{
+			c01OpWUConn(16384), c01OpWUConn(1), c01OpWUStr(5, 16384), c01OpDataS(1, 40000), c01OpSettings(16384, 0), c01OpSettings(1<<20, 0), c01OpSettings(1<<20, 1),
+			c01OpTrailers(3, false), c01OpIdle(), c01OpTick()}},
 		// narrow alphabets, deep: long starvation / credit sequences
 		{name: "client/deep-starve", side: clientSide, pre: o2, depthQ: 7, depthT: 10, ops: []c01Op{
 			c01OpData(1, 40000, false), c01OpData(3, 40000, true), c01OpWUConn(16384), c01OpWUStr(1, 16384), c01OpWUStr(3, 1),
@@ -112,7 +129,7 @@ func c01Scenarios() []c01Scenario {
 			c01OpOpen(), c01OpOpenBig(), c01OpDataS(1, 16390), c01OpDataS(3, 9), c01OpTrailers(1, true), c01OpTrailers(3, false), c01OpAbort(true), c01OpSettings(1, 0), c01OpSettings(1<<20, 0),
 			c01OpGoAway(), c01OpIdle(), c01OpTick()}},
 		// server: trailers queued behind window-blocked data, cancel while queued, draining
-		{name: "server/trailers2", side: serverSide, pre: o2, depthQ: 5, depthT: 8, ops: []c01Op{
+		{name: "server/trailers2", side: serverSide, pre: o2, depthQ: 5, depthT: 7, ops: []c01Op{
 			c01OpDataS(1, 16390), c01OpDataS(1, 40000), c01OpDataS(3, 9), c01OpDataS(3, 16384),
 			c01OpTrailers(1, false), c01OpTrailers(3, true), c01OpCleanup(1, true), c01OpCleanup(3, false),
 			c01OpWUConn(1), c01OpWUConn(65535), c01OpWUStr(1, 65535), c01OpWUStr(3, 1),
@@ -125,6 +142,66 @@ func c01Scenarios() []c01Scenario {
 			c01OpWUConn(16384), c01OpWUStr(1, 65535), c01OpSettings(1, 0), c01OpSettings(65535, 0),
 			c01OpInGoAway(), c01OpGoAway(), c01OpIdle(), c01OpTick()}},
 	}
+}
+
+// c01Weight: rough relative cost of a scenario (thousands of states in the
+// thorough tier), only used to spread the scenarios evenly over the shards.
+var c01Weight = map[string]int{
+	"client/roundrobin3": 450, "client/windows2": 290, "server/trailers2": 300, "client/full": 146, "server/full": 112,
+	"client/lifecycle": 55, "server/lifecycle": 121, "server/deep-trailers": 118, "client/deep-starve": 32,
+	"client/conn-starved2": 59, "server/conn-starved2": 98, "client/conn-starved3": 71, "server/conn-starved3": 88,
+	"client/bigheaders": 4, "server/bigheaders": 5,
+}
+
+// c01Balance assigns scenarios to shards: heaviest first, each to the least
+// loaded shard (deterministic); it returns which scenarios this shard runs.
+func c01Balance(scs []c01Scenario, r *vk.Run) []bool {
+	sh, n := r.Shard()
+	mine := make([]bool, len(scs))
+	if n <= 1 {
+		for i := range mine {
+			mine[i] = true
+		}
+		return mine
+	}
+	order := make([]int, len(scs))
+	for i := range order {
+		order[i] = i
+	}
+	wt := func(i int) int {
+		if w := c01Weight[scs[i].name]; w > 0 {
+			return w
+		}
+		return 50
+	}
+	sort.SliceStable(order, func(a, b int) bool { return wt(order[a]) > wt(order[b]) })
+	load := make([]int, n)
+	for _, i := range order {
+		best := 0
+		for k := 1; k < n; k++ {
+			if load[k] < load[best] {
+				best = k
+			}
+		}
+		load[best] += wt(i)
+		mine[i] = best == sh
+	}
+	return mine
+}
+
+// c01StarvedPre: n streams, each with two 40000-byte messages queued, writer idle
+// with the connection window used up (65535 bytes are out).
+func c01StarvedPre(n int) []c01Op {
+	var ops []c01Op
+	for i := 0; i < n; i++ {
+		ops = append(ops, c01OpOpen())
+	}
+	for round := 0; round < 2; round++ {
+		for i := 0; i < n; i++ {
+			ops = append(ops, c01OpData(uint32(2*i+1), 40000, false))
+		}
+	}
+	return append(ops, c01OpIdle())
 }
 
 // c01OpDataS: server data has no END_STREAM form.
@@ -162,9 +239,10 @@ func TestVerif_C01_Loopy(t *testing.T) {
 	c01Describe(r)
 	stats := &c01Stats{}
 	scs := c01Scenarios()
+	mine := c01Balance(scs, r)
 	for i := range scs {
 		sc := &scs[i]
-		if !r.Mine(i) {
+		if !mine[i] {
 			continue
 		}
 		seqx.BFS(r, c01Props, seqx.Config{
@@ -181,10 +259,10 @@ func TestVerif_C01_Loopy(t *testing.T) {
 }
 
 func c01Describe(r *vk.Run) {
-	common := "a FRESH real loopyWriter (newLoopyWriter) with a real framer (newFramer, 32 KiB private write buffer) over an in-memory conn and a real controlBuffer is built for every history and driven exactly as run() drives it: event item(x) = controlBuf.put(x); get(false); handle(x); processData(); event tick = one processData() with an empty control buffer; event idle = processData() until it reports empty, then Flush (run() would block now). Alphabet per side (client: clientHeaders; server: registerStream+serverHeaders): open, openBig (40 KiB header list, once), data(s,n,endStream) with n in {0,1,9,16384,16390,40000} as dataFrame{h=5-byte gRPC prefix, data=mem.BufferSlice of <=12000-byte tracked buffers} with the write quota taken like write() does, end(s) (empty END_STREAM frame of CloseSend), trailers(s,rst), earlyAbort(rst), wuConn(inc) / wuStr(s,inc) with inc in {1,16384,65535}, settings(INITIAL_WINDOW_SIZE in {0,1,16384,65535,2^20,2^31-1}) incl. one op variant per order in which applySettings' map range can re-activate waiting streams, cleanup(s,rst), incomingGoAway, goAway, idle, tick; at most 3 streams (ids 1,3,5 in order). Scenarios: the full alphabet (depth 4 quick / 5 thorough) and nine focused sub-alphabets of 10-20 ops started from 0-3 open streams (depth 5-7 quick / 7-10 thorough). BFS with state merging on a key made of loopy's private fields (sendQuota, oiws, draining, per established stream: state, bytesOutStanding, write quota, every queued item's remaining header/payload bytes, endStream, processing flag; activeStreams order) plus the ledger state. Every byte written (flushed or still in the framer's buffer) is re-parsed after every event by an independent http2.Framer + hpack.Decoder. A distinct state (by that key) is a non-trivial case. "
+	common := "a FRESH real loopyWriter (newLoopyWriter) with a real framer (newFramer, 32 KiB private write buffer) over an in-memory conn and a real controlBuffer is built for every history and driven exactly as run() drives it: event item(x) = controlBuf.put(x); get(false); handle(x); processData(); event tick = one processData() with an empty control buffer; event idle = processData() until it reports empty, once more after run()'s Gosched retry if fewer than minBatchSize bytes are buffered, then Flush (run() would block now). Alphabet per side (client: clientHeaders; server: registerStream+serverHeaders): open, openBig (40 KiB header list, once), data(s,n,endStream) with n in {0,1,9,16384,16390,40000} as dataFrame{h=5-byte gRPC prefix, data=mem.BufferSlice of <=12000-byte tracked buffers} with the write quota taken like write() does, end(s) (empty END_STREAM frame of CloseSend), trailers(s,rst), earlyAbort(rst), wuConn(inc) / wuStr(s,inc) with inc in {1,16384,65535}, settings(INITIAL_WINDOW_SIZE in {0,1,16384,65535,2^20,2^31-1}) incl. one op variant per order in which applySettings' map range can re-activate waiting streams, cleanup(s,rst), incomingGoAway, goAway, idle, tick; at most 3 streams (ids 1,3,5 in order). Scenarios: the full alphabet (depth 4 quick / 5 thorough) and thirteen focused sub-alphabets of 10-20 ops started from 0-3 open streams or from 2-3 streams queued behind an exhausted connection window (depth 5-7 quick / 7-10 thorough). BFS with state merging on a key made of loopy's private fields (sendQuota, oiws, draining, per established stream: state, bytesOutStanding, write quota, every queued item's remaining header/payload bytes, endStream, processing flag; activeStreams order) plus the ledger state. Every byte written (flushed or still in the framer's buffer) is re-parsed after every event by an independent http2.Framer + hpack.Decoder. A distinct state (by that key) is a non-trivial case. "
 	r.Rule("C01", common+"C01 oracle: connection window = 65535 + sum of wuConn - sum of DATA lengths; stream window = peer INITIAL_WINDOW_SIZE (changed at the position of loopy's SETTINGS ACK) + sum of wuStr(s) - sum of DATA(s); every DATA frame <= 16384 and, when non-empty, <= both windows before it; every HEADERS/CONTINUATION fragment <= 16384, header blocks contiguous and decoding to the header list handed in; every SETTINGS acked.")
 	r.Rule("C02", common+"C02 oracle: per stream the DATA payloads are compared byte by byte with h||data of the messages in put order (prefix at all times; complete at quiescence when both ledger windows are positive); END_STREAM only on the frame that carries the last byte of a stream whose last message was put (client), never on server DATA; trailers only after every DATA byte put before them; nothing after RST_STREAM, only the requested RST_STREAM after trailers / after the writer consumed a cleanupStream (its onWrite hook marks the position); requested RST_STREAM / trailers / HEADERS present at quiescence; every mem.Buffer handed in: never freed twice, never read after its last release, released exactly when its last byte is on the wire or its stream was cleaned up.")
-	r.Rule("C03", common+"C03 oracle, with the LEDGER's windows only: at every idle (quiescent) state no live stream with unsent bytes / pending END_STREAM has both a positive stream window and a positive connection window; a stream made eligible by the previous credit event gets at least one DATA frame before the writer idles; between two consecutive DATA frames of a stream, every other stream that had unsent data and both windows positive all the time gets a DATA frame; in-package after every event: state==active <=> member of activeStreams (no duplicates, no removed streams), state==empty <=> item list empty; processData reaches empty within 10000 calls.")
+	r.Rule("C03", common+"C03 oracle, with the LEDGER's windows only: at every idle (quiescent) state no live stream with unsent bytes / pending END_STREAM has both a positive stream window and a positive connection window; a stream made eligible by the previous credit event gets at least one DATA frame before the writer idles; bounded overtaking / round-robin: between two consecutive DATA frames of a stream (the second written with a positive connection window), every other stream that had unsent data and a positive stream window all the time gets a DATA frame - the shared connection window may be exhausted in between, so when it is granted in single-frame portions the served order must rotate; in-package after every event: state==active <=> member of activeStreams (no duplicates, no removed streams), state==empty <=> item list empty; processData reaches empty within 10000 calls.")
 	for _, p := range c01Props {
 		r.Assume(p, "applySettings ranges over the estdStreams map, so the order in which several waiting streams are re-activated is random in production; the harness re-orders the just re-activated tail of activeStreams after handle(incomingSettings) into the order named by the op (ascending by default, every other permutation is its own op variant), so keys and verdicts do not depend on Go's map iteration order")
 		r.Assume(p, "the goAway handlers of http2Client/http2Server (transport code, not loopy) are replaced by a stub that writes the same GOAWAY frame and returns the same draining/error results; HPACK encoder state and the framer's buffer fill level are not part of the state key (they do not influence the writer's decisions)")
